@@ -15,7 +15,8 @@ LEVEL_TEXT = 'exploration: exhaustive pairs on 11 small fields, random on 7 larg
 LEVEL_NOTE = 'trusted: vlib/oracles/ref.py'
 
 SMALL = [('p', 2), ('p', 3), ('x', 2, 'x^2+x+1'), ('p', 5), ('p', 7), ('x', 2, 'x^3+x+1'), ('x', 3, 'x^2+1'), ('x', 2, 'x^4+x+1'),
-         ('x', 5, 'x^2+2'), ('x', 3, 'x^3+2x+1'), ('x', 2, 'x^5+x^2+1')]
+         ('x', 5, 'x^2+2'), ('x', 3, 'x^3+2x+1'), ('x', 2, 'x^5+x^2+1'),
+         ('x', 3, '2x^2+2'), ('x', 5, '2x^2+4')]          # irreducible moduli need not be monic
 LARGE = [('p', 101), ('p', 2**61 - 1), ('p', 2**255 - 19), ('x', 2, 'x^8+x^4+x^3+x+1'), ('x', 3, 'x^5+2x+1'),
          ('x', 2, 'x^128+x^7+x^2+x+1'), ('x', 7, 'x^3+6x^2+4'), ('p', 2**127 - 1)]
 
@@ -66,6 +67,8 @@ def run(shard, rec):
     def mk(n):
         return field(n)
 
+    rec_alias_done = {}
+
     def check_pair(ai, bi):
         a, b = mk(ai), mk(bi)
         ea, eb = E(a), E(b)
@@ -107,6 +110,23 @@ def run(shard, rec):
                 viol(bad, op, case)
             elif E(x) != exp[op[1:]]:
                 viol(f'{ai} {op} {bi} = {E(x)} expected {exp[op[1:]]}', op, case)
+        # in-place operators only change the object they are applied to: other objects derived from the same element stay what they were
+        if not rec_alias_done.get((ai % 7, bi % 7)) and (ai + bi) % 3 == 0:
+            rec_alias_done[(ai % 7, bi % 7)] = True
+            import copy as _copy
+            for how, derive in (('+a', lambda v: +v), ('a**1', lambda v: v ** 1), ('F(a.value)', lambda v: field(v.value)), ('copy.copy(a)', lambda v: _copy.copy(v)), ('a*1', lambda v: v * 1)):
+                for op, fn in (('iadd', lambda x: x.__iadd__(b)), ('isub', lambda x: x.__isub__(b)), ('imul', lambda x: x.__imul__(b))):
+                    src = mk(ai)
+                    try:
+                        alias = derive(src)
+                    except Exception:
+                        continue
+                    fn(alias)
+                    rec.count('alias_checks')
+                    if E(src) != ea:
+                        viol(f'{op} on an element obtained as {how} changed the original element {ai} into {E(src)}', 'alias-' + op, case)
+                    elif E(alias) != exp[op[1:]]:
+                        viol(f'{op} on an element obtained as {how}: {E(alias)} expected {exp[op[1:]]}', 'alias-' + op, case)
         # mixed int operands, both sides: equals converting first
         n = bi if rng.random() < 0.7 else rng.choice([-1, -bi, bi + q, q, q - 1, 2 * q + 1])
         if d > 1 and n < 0:
